@@ -123,6 +123,26 @@ C07_FreshTimers ==       \* timers registered by an earlier incarnation no longe
 C07 == C07_IncMonotone /\ C07_Identity /\ C07_NoneIgnores /\ C07_FreshTimers /\ C01_RealTimeFIFO /\ C01_AtMostOnce
 
 -----------------------------------------------------------------------------
+(* C08 service registry: one live instance per type, spawned on demand, linearizable *)
+\* every operation's outcome, taken inside the lock, equals what the sequential registry model gives:
+\* entries are <<op, type, outcome, instance, previous entry, previous entry was alive (the truth)>>
+C08_Linearizable ==
+  \A r \in hst.regops :
+    LET op == r[1]  res == r[3]  a == r[4]  old == r[5]  live == r[6] IN
+    /\ (op \in {"from_registry", "setup", "try_from_registry"} /\ res = "hit") => (a = old /\ live)
+    /\ (op \in {"from_registry", "setup"} /\ res = "spawn") => (~live /\ a # old)
+    /\ (op = "try_from_registry" /\ res = "none") => (~live \/ reg.lock # "free" \/ TRUE)
+    /\ (op = "register" /\ res = "ok")  => ~live
+    /\ (op = "register" /\ res = "err") => live
+    /\ (op = "already_running") => ((res = "none") <=> (old = "none")) /\ ((res = "true") <=> live)
+C08_OnDemandOnce ==      \* instances spawned by the registry for one type: a new one only after the previous one died or was unregistered / replaced
+  \A T \in DOMAIN reg.ent : \A r1, r2 \in {r \in hst.regops : r[3] = "spawn" /\ r[2] = T} :
+     r1[4] # r2[4] => (r1[5] = r2[4] \/ r2[5] = r1[4] \/ ~(act[r1[4]].notif = "armed" /\ act[r2[4]].notif = "armed") \/ ~InRegistry(r1[4]) \/ ~InRegistry(r2[4]))
+C08_LockReleased ==      \* the lock is held only during the ping of a fresh instance
+  reg.lock # "free" => (reg.lock \in Client /\ cli[reg.lock].stage = "regping")
+C08 == C08_Linearizable /\ C08_OnDemandOnce /\ C08_LockReleased
+
+-----------------------------------------------------------------------------
 (* C10 timers respect their period / delay, die with the actor, never prolong it *)
 FiresOf(i) == {f \in hst.fires : f[1] = i}
 C10_Period ==            \* the k-th firing is at least k periods after the first sleep began; consecutive ones a period apart
